@@ -1,27 +1,35 @@
-"""Run one forking exploration on several cores: the decision tree is cut at a small depth, the
-subtrees below the cut are explored by forked worker processes, statistics and (already concretised)
-counterexamples are merged."""
-import multiprocessing
+"""Run one forking exploration on several cores.
+
+The decision tree is cut at a small depth in the parent; the subtrees below the cut are explored by
+worker *processes started afresh* (same command line, GRAMSYM_WORKER set), which claim subtree roots
+from a shared directory (dynamic balancing).  Statistics and already concretised counterexamples
+are merged in the parent.  (Forked workers were tried first and were an order of magnitude slower
+in system time; fresh processes are not.)
+"""
+import json
 import os
+import pickle
+import subprocess
+import sys
+import tempfile
 import time
 import traceback
 
 from .explorer import Explorer, SplitPoint
 
-_JOB = {}
+_CALLS = [0]
 
 
-def _worker(args):
-    idx, prefixes = args
-    make = _JOB["make"]
-    try:
-        ex, thunk, on_end = make()
-        ex.explore(thunk, on_end, initial_traces=prefixes)
-        return {"stats": ex.stats.as_dict(), "violations": [(v.label, v.info, v.trace) for v in ex.violations],
-                "counters": dict(ex.counters), "samples": list(ex.samples), "functions": sorted(ex.functions_executed),
-                "exhausted": ex.exhausted, "error": None}
-    except Exception as e:      # an internal error in a worker makes the whole check inconclusive
-        return {"error": "%r\n%s" % (e, traceback.format_exc())}
+def worker_spec():
+    w = os.environ.get("GRAMSYM_WORKER")
+    if not w:
+        return None
+    call, idx, tmp = w.split(":", 2)
+    return int(call), int(idx), tmp
+
+
+def is_worker():
+    return worker_spec() is not None
 
 
 class Merged:
@@ -54,69 +62,140 @@ class Merged:
         self.exhausted = self.exhausted and r["exhausted"]
 
 
-def parallel_explore(make, jobs, min_frontier=None, max_split_depth=14):
-    """make() -> (explorer, thunk, on_end).  Violations must carry JSON-serialisable `info`."""
+def _result(ex):
+    return {"stats": ex.stats.as_dict(), "violations": [(v.label, v.info, v.trace) for v in ex.violations],
+            "counters": dict(ex.counters), "samples": list(ex.samples), "functions": sorted(ex.functions_executed),
+            "exhausted": ex.exhausted, "error": None}
+
+
+CHUNK_SECONDS = 6.0
+
+
+def _run_worker(make, widx, tmp):
+    """Worker process: claim chunks of subtree roots until none is left; a chunk that takes longer
+    than CHUNK_SECONDS hands its unexplored subtrees back to the pool (dynamic balancing)."""
+    out = None
+    try:
+        ex, thunk, on_end = make()
+        ex.keep_leftover = True
+        extra = 0
+        busy = os.path.join(tmp, "busy_%d" % widx)
+        while True:
+            names = sorted(f for f in os.listdir(tmp) if f.startswith("chunk_"))
+            got = None
+            for f in names:
+                try:
+                    fd = os.open(os.path.join(tmp, "claim_" + f), os.O_CREAT | os.O_EXCL | os.O_WRONLY)
+                    os.close(fd)
+                    got = f
+                    break
+                except FileExistsError:
+                    continue
+            if got is None:
+                if not any(f.startswith("busy_") for f in os.listdir(tmp)):
+                    break
+                time.sleep(0.1)
+                continue
+            open(busy, "w").close()
+            try:
+                with open(os.path.join(tmp, got)) as fh:
+                    chunk = json.load(fh)
+                ex.deadline = time.time() + CHUNK_SECONDS
+                ex.leftover = []
+                ex.explore(thunk, on_end, initial_traces=chunk)
+                left = ex.leftover
+                ex.leftover = []
+                if os.environ.get("GRAMSYM_PAR_DEBUG"):
+                    with open("/tmp/gramsym-par-debug.log", "a") as dbg:
+                        dbg.write("worker %d %s: %d roots, paths so far %d, leftover %d, t=%.1f cpu=%.1f\n" % (widx, got, len(chunk), ex.stats.paths, len(left), time.time() % 1000, sum(os.times()[:2])))
+                if left:
+                    per = max(1, len(left) // 4)
+                    for i in range(0, len(left), per):
+                        path = os.path.join(tmp, "chunk_x%d_%d.json" % (widx, extra))
+                        extra += 1
+                        with open(path + ".tmp", "w") as fh:
+                            json.dump(left[i:i + per], fh)
+                        os.rename(path + ".tmp", path)
+            finally:
+                try:
+                    os.unlink(busy)
+                except OSError:
+                    pass
+        ex.deadline = None
+        out = _result(ex)
+    except BaseException as e:
+        out = {"error": "worker %d: %r\n%s" % (widx, e, traceback.format_exc())}
+    with open(os.path.join(tmp, "result_%d.pkl" % widx), "wb") as fh:
+        pickle.dump(out, fh)
+    sys.stdout.flush()
+    os._exit(0)
+
+
+def parallel_explore(make, jobs, min_frontier=None):
+    """make() -> (explorer, thunk, on_end).  Violations must carry picklable `info`."""
+    call = _CALLS[0]
+    _CALLS[0] += 1
+    spec = worker_spec()
+    if spec is not None:
+        wcall, widx, tmp = spec
+        if wcall != call:
+            return Merged()          # another part of the check: nothing to do in this worker
+        _run_worker(make, widx, tmp)
     jobs = max(1, jobs)
     out = Merged()
+    ex, thunk, on_end = make()
     if jobs == 1:
-        ex, thunk, on_end = make()
         ex.explore(thunk, on_end)
-        out.add({"stats": ex.stats.as_dict(), "violations": [(v.label, v.info, v.trace) for v in ex.violations],
-                 "counters": dict(ex.counters), "samples": list(ex.samples), "functions": sorted(ex.functions_executed),
-                 "exhausted": ex.exhausted, "error": None})
+        out.add(_result(ex))
         return out
-    want = min_frontier or jobs * 16
-    depth = 4
+    want = min_frontier or jobs * 8
+    t_start = time.time()
+    pending = [[]]
+    depth = 6
     while True:
-        ex, thunk, on_end = make()
+        # cut the decision tree at `depth`: paths that end above the cut are complete, the others
+        # are recorded as subtree roots; the next round refines only those roots
         ex.split_depth = depth
-        ex.explore(thunk, on_end)
-        if len(ex.frontier) >= want or depth >= max_split_depth or not ex.frontier:
+        ex.frontier = []
+        ex.explore(thunk, on_end, initial_traces=pending)
+        pending = ex.frontier
+        if os.environ.get("GRAMSYM_PAR_DEBUG"):
+            print("split depth %d: %d subtrees pending, %d paths done in parent, %.1fs" % (depth, len(pending), ex.stats.paths, time.time() - t_start), flush=True)
+        if len(pending) >= want or not pending or depth >= 60:
             break
-        depth += 2
-    out.add({"stats": ex.stats.as_dict(), "violations": [(v.label, v.info, v.trace) for v in ex.violations],
-             "counters": dict(ex.counters), "samples": list(ex.samples), "functions": sorted(ex.functions_executed),
-             "exhausted": ex.exhausted, "error": None})
-    frontier = ex.frontier
+        if len(pending) >= jobs and time.time() - t_start > 2.0:
+            break
+        depth += 4
+    ex.split_depth = None
+    out.add(_result(ex))
+    frontier = pending
     if not frontier:
         return out
-    # forked workers; chunk i goes to worker i mod jobs (interleaved: neighbouring subtrees have
-    # similar size, so this balances well); results come back through files
-    import json
-    import pickle
-    import tempfile
-    nworkers = min(jobs, len(frontier))
+    per = max(1, len(frontier) // (jobs * 4))
+    chunks = [frontier[i:i + per] for i in range(0, len(frontier), per)]
     tmp = tempfile.mkdtemp(prefix="gramsym-par-")
-    pids = []
+    for ci, chunk in enumerate(chunks):
+        with open(os.path.join(tmp, "chunk_%05d.json" % ci), "w") as fh:
+            json.dump(chunk, fh)
+    nworkers = min(jobs, max(len(chunks), 2))
+    procs = []
     for w in range(nworkers):
-        mine = frontier[w::nworkers]
-        pid = os.fork()
-        if pid == 0:
-            rc = 0
-            try:
-                _JOB["make"] = make
-                r = _worker((w, mine))
-                with open(os.path.join(tmp, "%d.pkl" % w), "wb") as fh:
-                    pickle.dump(r, fh)
-            except BaseException as e:
-                try:
-                    with open(os.path.join(tmp, "%d.pkl" % w), "wb") as fh:
-                        pickle.dump({"error": "worker crashed: %r" % (e,)}, fh)
-                except Exception:
-                    pass
-                rc = 1
-            finally:
-                os._exit(rc)
-        pids.append(pid)
-    for w, pid in enumerate(pids):
-        os.waitpid(pid, 0)
-        path = os.path.join(tmp, "%d.pkl" % w)
+        env = dict(os.environ)
+        env["GRAMSYM_WORKER"] = "%d:%d:%s" % (call, w, tmp)
+        procs.append(subprocess.Popen([sys.executable] + sys.argv, env=env, stdout=subprocess.DEVNULL, stderr=subprocess.DEVNULL))
+    for w, p in enumerate(procs):
+        p.wait()
+        path = os.path.join(tmp, "result_%d.pkl" % w)
         if os.path.exists(path):
             with open(path, "rb") as fh:
                 out.add(pickle.load(fh))
-            os.unlink(path)
         else:
-            out.add({"error": "worker %d produced no result" % w})
+            out.add({"error": "worker %d produced no result (exit status %s)" % (w, p.returncode)})
+    for f in os.listdir(tmp):
+        try:
+            os.unlink(os.path.join(tmp, f))
+        except OSError:
+            pass
     try:
         os.rmdir(tmp)
     except OSError:
